@@ -9,7 +9,7 @@ open Sge
 /-! ### environment operations -/
 
 theorem authzGrant_ok {s s' : State} {a b k : Nat} {l : Option Int} {e : Option Nat} (h : authzGrant s a b k l e = .ok s') :
-    (k = 2 → s.fixed = true) ∧ k ≤ 2 ∧
+    (k = 2 → s.codecFixed = true) ∧ k ≤ 2 ∧
     s' = { s with grants := setGrant s.grants { granter := a, grantee := b, kind := k, limit := l.getD 0, exp := e } } := by
   unfold authzGrant at h
   invert h
@@ -130,6 +130,24 @@ theorem exec_fixed {s s' : State} {op : Op} (h : exec s op = .ok s') : s'.fixed 
   | createSub o => have := createSub_ok h; subst this; rfl
   | bankSend f t a => obtain ⟨b, _, _, _, rfl⟩ := bankSend_ok h; rfl
 
+/-- the variant flag never changes -/
+theorem exec_codecFixed {s s' : State} {op : Op} (h : exec s op = .ok s') : s'.codecFixed = s.codecFixed := by
+  cases op with
+  | time t => simp only [exec, Except.ok.injEq] at h; subst h; rfl
+  | createPromoter m => obtain ⟨_, _, rfl⟩ := createPromoter_ok h; rfl
+  | setConf m => obtain ⟨p, _, _, _, rfl⟩ := setPromoterConf_ok h; rfl
+  | createCampaign m => obtain ⟨_, _, _, _, _, _, _, _, _, _, _, rfl⟩ := createCampaign_ok h; rfl
+  | updateCampaign m =>
+    obtain ⟨c, gs, _, _, _, _, _, hcase⟩ := updateCampaign_ok h
+    rcases hcase with ⟨_, _, _, _, _, rfl⟩ | ⟨_, rfl⟩ <;> rfl
+  | withdraw m => obtain ⟨_, _, _, _, _, _, _, _, _, _, _, _, rfl⟩ := withdrawFunds_ok h; rfl
+  | grant m => obtain ⟨_, _, _, _, _, _, _, _, _, _, _, _, _, rfl⟩ := grantReward_ok h; rfl
+  | authzGrant a b k l e => obtain ⟨_, _, rfl⟩ := authzGrant_ok h; rfl
+  | authzRevoke a b k => have := authzRevoke_ok h; subst this; rfl
+  | putBet b => obtain ⟨_, rfl⟩ := putBet_ok h; rfl
+  | createSub o => have := createSub_ok h; subst this; rfl
+  | bankSend f t a => obtain ⟨b, _, _, _, rfl⟩ := bankSend_ok h; rfl
+
 theorem step_eq (s : State) (op : Op) : (∃ s', exec s op = .ok s' ∧ step s op = s') ∨ step s op = s := by
   unfold step
   cases h : exec s op with
@@ -144,6 +162,11 @@ theorem inv_step {s : State} (op : Op) (hI : Inv s) : Inv (step s op) := by
 theorem step_fixed (s : State) (op : Op) : (step s op).fixed = s.fixed := by
   rcases step_eq s op with ⟨s', h, e⟩ | e
   · rw [e]; exact exec_fixed h
+  · rw [e]
+
+theorem step_codecFixed (s : State) (op : Op) : (step s op).codecFixed = s.codecFixed := by
+  rcases step_eq s op with ⟨s', h, e⟩ | e
+  · rw [e]; exact exec_codecFixed h
   · rw [e]
 
 theorem poolEq_step {s : State} (op : Op) (hI : Inv s) (hP : PoolEq s) (hok : s.fixed = true ∨ OpNonneg op) :
@@ -165,6 +188,13 @@ theorem run_fixed (s : State) (ops : List Op) : (run s ops).fixed = s.fixed := b
   | cons op rest ih =>
     show (run (step s op) rest).fixed = s.fixed
     rw [ih, step_fixed]
+
+theorem run_codecFixed (s : State) (ops : List Op) : (run s ops).codecFixed = s.codecFixed := by
+  induction ops generalizing s with
+  | nil => rfl
+  | cons op rest ih =>
+    show (run (step s op) rest).codecFixed = s.codecFixed
+    rw [ih, step_codecFixed]
 
 theorem poolEq_run {s : State} (ops : List Op) (hI : Inv s) (hP : PoolEq s)
     (hok : s.fixed = true ∨ ∀ op ∈ ops, OpNonneg op) : PoolEq (run s ops) := by
